@@ -18,6 +18,7 @@ def main(tier: str, seed: int) -> int:
     shards += E.random_shards(PROP, run, JUDGES, profile="core", count=run.pick(30, 300), cap=run.pick(150, 300), maxlen=4, extra={"start_rules": "all", "positions": True, "extra_alpha": "\né"})
     shards += E.random_shards(PROP, run, JUDGES, profile="core", count=run.pick(30, 300), cap=run.pick(150, 300), maxlen=4, extra={"start_rules": "all", "positions": True, "extra_alpha": "\r\n", "profile_overrides": {"linebreak_lits": True}})
     shards += E.matrix_shards(PROP, run, JUDGES, sample=run.pick(1500, 0), cap=run.pick(150, 400), extra={"positions": True, "extra_alpha": " #\n"})
+    shards += E.scale_shards(PROP, run, JUDGES, extra={"positions": True})
     E.execute(run, shards)
     from pv.checks import bundled
 
